@@ -29,6 +29,65 @@ def _self_attr(e: ast.AST) -> Optional[str]:
     return None
 
 
+def _value_closure(func_node, value, depth: int = 6):
+    """the expression together with the defining expressions of every local name it mentions, transitively"""
+    defs = {}
+    for st in ast.walk(func_node):
+        if isinstance(st, ast.Assign):
+            for t in st.targets:
+                for n in ast.walk(t):
+                    if isinstance(n, ast.Name):
+                        defs.setdefault(n.id, []).append(st.value)
+                    elif isinstance(n, ast.Subscript) and isinstance(n.value, ast.Name):
+                        defs.setdefault(n.value.id, []).append(st.value)
+        elif isinstance(st, (ast.AugAssign, ast.AnnAssign)) and st.value is not None:
+            for n in ast.walk(st.target):
+                if isinstance(n, ast.Name):
+                    defs.setdefault(n.id, []).append(st.value)
+        elif isinstance(st, (ast.For, ast.comprehension)):
+            for n in ast.walk(st.target):
+                if isinstance(n, ast.Name):
+                    defs.setdefault(n.id, []).append(st.iter)
+    out, seen, frontier = [value], set(), [value]
+    for _ in range(depth):
+        nxt = []
+        for e in frontier:
+            for n in ast.walk(e):
+                if isinstance(n, ast.Name) and n.id not in seen and n.id in defs:
+                    seen.add(n.id)
+                    nxt.extend(defs[n.id])
+        out.extend(nxt)
+        frontier = nxt
+        if not nxt:
+            break
+    return out
+
+
+def _writes_into_attr(func_node, attrs) -> bool:
+    """does the method store into / call a mutating method on / rebind one of `self.<attrs>`?"""
+    if not attrs:
+        return False
+    for st in ast.walk(func_node):
+        tg = []
+        if isinstance(st, ast.Assign):
+            tg = st.targets
+        elif isinstance(st, (ast.AugAssign, ast.AnnAssign)):
+            tg = [st.target]
+        elif isinstance(st, ast.Delete):
+            tg = st.targets
+        for t in tg:
+            base = t
+            while isinstance(base, ast.Subscript):
+                base = base.value
+            if _self_attr(base) in attrs:
+                return True
+        if isinstance(st, ast.Call) and isinstance(st.func, ast.Attribute) and st.func.attr in (
+                "update", "pop", "clear", "setdefault", "append", "extend", "remove", "popitem", "__setitem__") \
+                and _self_attr(st.func.value) in attrs:
+            return True
+    return False
+
+
 def _is_setter_or_init(f: Function) -> bool:
     return f.name in ("__init__", "__post_init__", "__setstate__") or f.is_setter
 
@@ -64,9 +123,12 @@ def instance_memo_rule(ctx, rule: str, classes: List[Class], what: str):
                 if isinstance(value, ast.Constant):
                     continue        # a flag or a reset, not a derived value
                 n_memos += 1
-                dep_params = {n.id for n in ast.walk(value) if isinstance(n, ast.Name) and n.id in params}
-                dep_state = {_self_attr(n) for n in ast.walk(value) if _self_attr(n)} - {attr}
-                dep_state |= {"<state>"} if any(isinstance(n, ast.Name) and n.id == "self" for n in ast.walk(value)) else set()
+                # what the stored expression reads, followed through the locals of the method (a value assembled in a local dict
+                # from `self.e`, `self.a1`, ... depends on the object's state just as `self.e * 2` does)
+                closure = _value_closure(f.node, value)
+                dep_params = {n.id for e_ in closure for n in ast.walk(e_) if isinstance(n, ast.Name) and n.id in params}
+                dep_state = {_self_attr(n) for e_ in closure for n in ast.walk(e_) if _self_attr(n)} - {attr}
+                dep_state |= {"<state>"} if any(isinstance(n, ast.Name) and n.id == "self" for e_ in closure for n in ast.walk(e_)) else set()
                 problems = []
                 if dep_params:
                     guards = [g.test for g in ast.walk(f.node) if isinstance(g, (ast.If, ast.IfExp)) and any(
@@ -85,6 +147,16 @@ def instance_memo_rule(ctx, rule: str, classes: List[Class], what: str):
                         isinstance(x, (ast.Assign, ast.AnnAssign, ast.Delete)) and any(
                             _self_attr(tt) == attr for tt in (x.targets if isinstance(x, (ast.Assign, ast.Delete)) else [x.target]))
                         for x in ast.walk(m.node))]
+                    # methods that write into the very attributes the value was computed from (`self._parameters[k] = v`,
+                    # `self._parameters.update(...)`) change its inputs whether or not the effect summary calls them mutators
+                    for m in methods:
+                        if m is f or _is_setter_or_init(m) or m.qualname in stale:
+                            continue
+                        if _writes_into_attr(m.node, dep_state - {"<state>"}) and not any(
+                                isinstance(x, (ast.Assign, ast.AnnAssign, ast.Delete)) and any(
+                                    _self_attr(tt) == attr for tt in (x.targets if isinstance(x, (ast.Assign, ast.Delete)) else [x.target]))
+                                for x in ast.walk(m.node)):
+                            stale.append(m.qualname)
                     if stale:
                         problems.append("it is computed from the object's own data, which " + ", ".join(sorted(set(stale))[:4])
                                         + (" ..." if len(set(stale)) > 4 else "") + " change in place without refreshing it")
@@ -141,6 +213,38 @@ def positive_example(ctx, rule):
               "instance attribute filled on demand and never refreshed")
 
 
+_REDUCERS = {"len", "abs", "float", "int", "round", "min", "max", "sum", "id", "hash", "type", "bool", "any", "all"}
+_REDUCING_ATTRS = {"shape", "size", "ndim", "dtype", "nbytes", "sizes", "dims"}
+
+
+def _whole_occurrence(expr: ast.AST, name: str) -> bool:
+    """does `expr` contain the argument `name` (or data reached from it by attribute access) other than under a reduction - `len(x)`,
+    `x.shape`, `x[0]`, `abs(x[1] - x[0])`, `float(...)`?  A key made only of reductions cannot tell two arguments apart."""
+    parents = {}
+    for n in ast.walk(expr):
+        for c in ast.iter_child_nodes(n):
+            parents[c] = n
+    for n in ast.walk(expr):
+        if not (isinstance(n, ast.Name) and n.id == name):
+            continue
+        cur, reduced = n, False
+        while cur in parents:
+            par = parents[cur]
+            if isinstance(par, ast.Attribute) and par.attr in _REDUCING_ATTRS:
+                reduced = True
+            if isinstance(par, ast.Subscript) and par.value is cur and not isinstance(par.slice, ast.Slice):
+                reduced = True
+            if isinstance(par, ast.Call) and cur is not par.func:
+                fn = par.func
+                nm = fn.id if isinstance(fn, ast.Name) else (fn.attr if isinstance(fn, ast.Attribute) else "")
+                if nm in _REDUCERS or nm in ("mean", "std", "var", "ptp", "median", "prod", "argmax", "argmin", "count_nonzero"):
+                    reduced = True
+            cur = par
+        if not reduced:
+            return True
+    return False
+
+
 def module_memo_rule(ctx, rule: str, modules, what: str):
     """The same discipline for values remembered at module level: a function that both reads and writes a module-level container G
     (or rebinds a `global`) keeps a result across calls.  Whatever the remembered value was computed from must be compared *itself*
@@ -155,7 +259,7 @@ def module_memo_rule(ctx, rule: str, modules, what: str):
               for t in (st.targets if isinstance(st, ast.Assign) else [st.target]) if isinstance(t, ast.Name)}
         for f in [f for f in p.all_functions if f.module is m and isinstance(f.node, (ast.FunctionDef, ast.AsyncFunctionDef))]:
             n_funcs += 1
-            params = set(f.params) - {"self", "cls"}
+            params = set(f.params) - {"cls"}      # for a method, `self` is the argument the remembered value may depend on
             declared = {n_ for st in ast.walk(f.node) if isinstance(st, ast.Global) for n_ in st.names}
             local_names = {t.id for st in ast.walk(f.node) if isinstance(st, (ast.Assign, ast.AnnAssign, ast.AugAssign))
                            for t in (st.targets if isinstance(st, ast.Assign) else [st.target]) if isinstance(t, ast.Name)} - declared
@@ -191,7 +295,7 @@ def module_memo_rule(ctx, rule: str, modules, what: str):
                 problems = []
                 for pn in sorted(dep_params):
                     ok = any(isinstance(c, ast.Compare) and any(isinstance(o, (ast.Is, ast.IsNot, ast.Eq, ast.NotEq, ast.In, ast.NotIn)) for o in c.ops)
-                             and any(isinstance(s_, ast.Name) and s_.id == pn for s_ in [c.left] + list(c.comparators))
+                             and any(_whole_occurrence(substitute_defs(f.node, s_, params | {g}), pn) for s_ in [c.left] + list(c.comparators))
                              for t in guards for c in ast.walk(t))
                     if not ok:
                         problems.append(f"it is computed from the argument `{pn}` but reused without comparing `{pn}` itself with what was "
